@@ -456,6 +456,39 @@ def check_concat_history(stats, case):
     return "concatenation history of %d calls" % seen, seen >= 2
 
 
+def tower_twin(x, flavour):
+    """the same structure with every bool / small int / integral float leaf replaced by its ==-equal twin"""
+    if isinstance(x, bool):
+        return [int(x), float(x), x][flavour % 3]
+    if isinstance(x, int) and x in (0, 1):
+        return [bool(x), float(x), x][flavour % 3]
+    if isinstance(x, float) and x in (0.0, 1.0):
+        return [bool(x), int(x), -x if x == 0.0 else x][flavour % 3]
+    if isinstance(x, list):
+        return [tower_twin(e, flavour) for e in x]
+    if isinstance(x, dict):
+        return {k: tower_twin(v, flavour) for k, v in x.items()}
+    return x
+
+
+TWIN_RULES = [
+    {"==": [[1], "1"]}, {"in": [1, [1, 2]]}, {"merge": [[1], [2, [0]]]}, {"cat": [1, [0, 1]]}, {"===": [1, {"var": ""}]}, {"===": [[0], [0]]}, {"!!": [[0]]},
+    {"in": [0, {"var": "xs"}]}, {"cat": [{"var": ""}, 1]}, {"if": [0, "zero-truthy", "zero-falsy"]}, {"==": [0, ""]}, {"+": [1, [1]]}, [1, 0, {"k": 1}], {"var": ["nope", 1]},
+]
+
+
+def check_twin_history(stats, case):
+    """a rule, then its numeric-tower twins (True / 1 / 1.0, False / 0 / 0.0 / -0.0), in one interpreter"""
+    rule, data, flavours = case
+    n = 0
+    for fl in [None] + list(flavours):
+        r = rule if fl is None else tower_twin(rule, fl)
+        d = data if fl is None else tower_twin(data, fl + 1)
+        check_apply(stats, r, d, "positional", "omitted", "omitted")
+        n += 1
+    return "twin history of %d calls" % n, n >= 2
+
+
 def check_mutation_history(stats, case):
     """the same dict / list object passed again after in-place edits: each call sees the current content"""
     kind, edits = case
@@ -499,6 +532,7 @@ def check_mutation_history(stats, case):
 
 
 BODIES = {
+    "py_twin_history": lambda stats, c: check_twin_history(stats, c),
     "py_concat_history": lambda stats, c: check_concat_history(stats, c),
     "py_mutation_history": lambda stats, c: check_mutation_history(stats, c),
     "py_scalar_history": lambda stats, c: check_scalar_history(stats, c),
@@ -570,6 +604,12 @@ if args.prop == "C19":
         "py_concat_history",
         st.tuples(st.lists(st.integers(0, 9), min_size=2, max_size=6), st.lists(st.integers(0, 5), min_size=2, max_size=4, unique=True), st.sampled_from(["apply", "serialized", "serialized-dotted"])),
         lambda stats, c: check_concat_history(stats, c),
+        max(200, n // 4),
+    )
+    run_sub(
+        "py_twin_history",
+        st.tuples(st.one_of(st.sampled_from(TWIN_RULES), rules(st.sampled_from([0, 1, True, False, 1.0, 0.0, "1", "0", None]))), st.sampled_from([None, 1, 0, True, 0.0, {"xs": [0, 1]}, [1, 0], {}]), st.lists(st.integers(0, 5), min_size=1, max_size=3)),
+        lambda stats, c: check_twin_history(stats, c),
         max(200, n // 4),
     )
     run_sub(
